@@ -309,6 +309,7 @@ class Dag:
         self.n = n
         self._rp = {}
         self.inputs = {}
+        self.cached = list(cached) if cached is not None else [True] * n
         with notrace():
             self.m = new_model(tag)
             m = self.m
@@ -441,7 +442,7 @@ class Dag:
         chain = []
 
         def run(k, tt):
-            if (k, tt) in done or (k, tt) in self.inputs:
+            if ((k, tt) in done and self.cached[k]) or (k, tt) in self.inputs:
                 return True
             L = self.lines(k)
             chain.append([k, tt, 0])
@@ -464,7 +465,8 @@ class Dag:
                 chain[-1][2] = 0            # the error is raised by modelx after the formula returned
                 return False
             chain.pop()
-            done.append((k, tt))
+            if self.cached[k] and (k, tt) not in done:
+                done.append((k, tt))
             return True
 
         ok = run(q, t)
